@@ -439,6 +439,18 @@ func (p *lineParser) MorphSetext(level int) {
 	p.container.n = level
 }
 
+// ContainerHasParagraphContent reports whether the container is a paragraph
+// that would still have content after its leading link reference definitions are removed.
+func (p *lineParser) ContainerHasParagraphContent() bool {
+	if p.ContainerKind() != ParagraphKind {
+		return false
+	}
+	clone := *p.container
+	clone.inlineChildren = append([]*Inline(nil), p.container.inlineChildren...)
+	result := onCloseParagraph(p.source, &clone)
+	return len(result) > 0 && result[len(result)-1] == &clone
+}
+
 // TipKind returns the kind of the deepest open block.
 func (p *lineParser) TipKind() BlockKind {
 	return findTip(&p.root).kind
@@ -719,6 +731,11 @@ var blockStarts = []func(*lineParser){
 		}
 		level := parseSetextHeadingUnderline(p.BytesAfterIndent())
 		if level == 0 {
+			return
+		}
+		if !p.ContainerHasParagraphContent() {
+			// The paragraph consists entirely of link reference definitions,
+			// so there is nothing for the underline to turn into a heading.
 			return
 		}
 		p.MorphSetext(level)
